@@ -8,7 +8,11 @@ use std::cell::RefCell;
 pub const S1: char = '\u{e000}';
 pub const S2: char = '\u{e001}';
 
-pub const LANGS: [&str; 7] = ["none", "de", "en", "es", "fr", "pt", "ru"];
+/// The six bundled languages, "none" (`Lang::new()`), and "xk": a user-defined language built through
+/// the public `Lang` API (kana + Hebrew compositions with script-specific combining marks, an
+/// expanding ligature, two function words) - "for all languages" includes the ones a user defines.
+pub const LANGS: [&str; 8] = ["none", "de", "en", "es", "fr", "pt", "ru", "xk"];
+pub const NL: u64 = 8;
 
 #[derive(Clone)]
 pub struct Rng(pub u64);
@@ -81,8 +85,33 @@ pub fn mk_lang(name: &str) -> Lang {
         "fr" => lang_french(),
         "pt" => lang_portuguese(),
         "ru" => lang_russian(),
+        "xk" => lang_custom(),
         _ => Lang::new(),
     }
+}
+
+pub const XK_COMPOSE: [(&str, &str); 6] =
+    [("か\u{3099}", "が"), ("き\u{3099}", "ぎ"), ("は\u{3099}", "ば"), ("は\u{309a}", "ぱ"), ("ウ\u{3099}", "ヴ"), ("ש\u{5c1}", "\u{fb2a}")];
+pub const XK_REDUCE: [(&str, &str); 7] = [("が", "か"), ("ぎ", "き"), ("ば", "は"), ("ぱ", "は"), ("ヴ", "ウ"), ("\u{fb2a}", "ש"), ("ゟ", "より")];
+
+fn lang_custom() -> Lang {
+    use lucid_suggest_core::lang::{CharClass, PartOfSpeech};
+    let mut lang = Lang::new();
+    for (from, to) in XK_COMPOSE.iter() {
+        lang.add_unicode_composition(from, to);
+    }
+    for (from, to) in XK_REDUCE.iter() {
+        lang.add_unicode_reduction(from, to);
+    }
+    lang.add_pos("の", PartOfSpeech::Particle);
+    lang.add_pos("が", PartOfSpeech::Particle);
+    for ch in "あいうえお".chars() {
+        lang.add_char_class(ch, CharClass::Vowel);
+    }
+    for ch in "かきくけこさしすせそたちつてとはひふへほ".chars() {
+        lang.add_char_class(ch, CharClass::Consonant);
+    }
+    lang
 }
 
 thread_local! {
